@@ -336,7 +336,7 @@ class Model:
             base = m.imports[head]
         elif head in m.globals_assigned:
             return None
-        elif hasattr(builtins, head):
+        elif hasattr(builtins, head) or head == "_ttsa_is_sequence":      # (the sequence test a desugared `match` introduces)
             base = f"builtins.{head}"
         else:
             return None
@@ -489,12 +489,30 @@ def _inline_attr_aliases(fn):
 
 
 def _canonicalise(tree):
+    from .desugar import desugar
+    tree = desugar(tree)
     tree = _Canon().visit(tree)
     for n in ast.walk(tree):
         if isinstance(n, (ast.FunctionDef, ast.AsyncFunctionDef)):
             _inline_attr_aliases(n)
     ast.fix_missing_locations(tree)
     return tree
+
+
+def own_walk(fn):
+    """the nodes of a function's own body: nested function / class definitions and lambdas are yielded but not entered (their returns and
+    assignments belong to them)"""
+    todo = list(ast.iter_child_nodes(fn))
+    while todo:
+        n = todo.pop()
+        yield n
+        if isinstance(n, (ast.FunctionDef, ast.AsyncFunctionDef, ast.ClassDef, ast.Lambda)):
+            continue
+        todo.extend(ast.iter_child_nodes(n))
+
+
+def own_returns(fn):
+    return sorted((n for n in own_walk(fn) if isinstance(n, ast.Return)), key=lambda n: (n.lineno, n.col_offset))
 
 
 TORCH_MODULE_ALIASES = ("tn", "torch", "np", "numpy", "tnf", "oe")
